@@ -60,12 +60,17 @@ def G.qpuToQudit (g : G) (remote : List (Nat × Nat)) : List (List Nat) :=
     if qpus.any (·.contains qudit) then qpus
     else qpus ++ [compLoop g remote (g.n + 1) [qudit] []]) []
 
-/-- `get_qudit_to_qpu_map()` AS WRITTEN: the dict `qudit ↦ qpu` is filled QPU
-by QPU and `list(dict.values())` is returned, i.e. the values in *insertion*
-order, not indexed by qudit: the result is `[0]*|qpu 0| ++ [1]*|qpu 1| ++ …`
-whatever the members are. -/
+/-- `get_qudit_to_qpu_map()` (since the fix 2c665e0): the dict `qudit ↦ qpu` is
+filled QPU by QPU (a later assignment overwrites an earlier one) and
+`[qudit_to_qpu[q] for q in range(num_qudits)]` is returned; `none` = KeyError
+(a qudit in no QPU — cannot happen, see `Proofs/GraphQpu.lean`). -/
+def G.quditToQpuImpl? (g : G) (remote : List (Nat × Nat)) : Option (List Nat) :=
+  let d : List (Nat × Nat) :=
+    (g.qpuToQudit remote).zipIdx.flatMap (fun qi => qi.1.map (fun q => (q, qi.2)))
+  (List.range g.n).mapM (fun q => (d.reverse.find? (fun kv => kv.1 == q)).map (·.2))
+
 def G.quditToQpuImpl (g : G) (remote : List (Nat × Nat)) : List Nat :=
-  (g.qpuToQudit remote).zipIdx.flatMap (fun qi => qi.1.map (fun _ => qi.2))
+  (g.quditToQpuImpl? remote).getD []
 
 /-- what the docstring says: entry `q` is the index of the QPU holding `q`. -/
 def G.quditToQpuSpec (g : G) (remote : List (Nat × Nat)) : List Nat :=
